@@ -48,6 +48,7 @@ type c19Param struct {
 }
 
 type c19Elem struct {
+	PtrRecv bool
 	Key     string // pkg.Name or pkg.(Recv).Name
 	Pkg     string // import path
 	Kind    string // func | method | field | var
@@ -138,6 +139,9 @@ func c19Surface(pkg *types.Package) []c19Elem {
 					continue
 				}
 				e := c19Elem{Key: short + ".(" + name + ")." + m.Name(), Pkg: pkg.Path(), Kind: "method", Recv: name, Name: m.Name()}
+				if rv := m.Type().(*types.Signature).Recv(); rv != nil {
+					_, e.PtrRecv = rv.Type().(*types.Pointer)
+				}
 				sig(&e, m.Type().(*types.Signature))
 				out = append(out, e)
 			}
@@ -296,6 +300,8 @@ func checkC19(r *core.Run) {
 		switch {
 		case e.Kind == "field" && (c19SafeTypes[e.Pkg+"."+e.Recv] || e.Recv == "Template") && !reviewed:
 			r.Witness("unreviewed-exported-field", "", e.Key, fmt.Sprintf("exported field %s (%v) of a trusted type is not in the reviewed API surface", e.Key, e.Results), nil)
+		case e.Kind == "method" && e.PtrRecv && c19SafeTypes[e.Pkg+"."+e.Recv] && !reviewed:
+			r.Witness("unreviewed-mutator-method", "", e.Key, fmt.Sprintf("%s%v has a pointer receiver on a trusted type (it can replace the value's contents, e.g. through encoding/json or flag.TextVar) and is not in the reviewed API surface", e.Key, e.Params), nil)
 		case (e.Kind == "func" || e.Kind == "method") && c19YieldsTrusted(e) && raw && !reviewed:
 			r.Witness("unreviewed-raw-entry-point", "", e.Key, fmt.Sprintf("%s%v returns %v and takes run-time text, but is not in the reviewed API surface", e.Key, e.Params, e.Results), nil)
 		case reviewed && class == "known-finding":
@@ -406,6 +412,21 @@ func checkC19(r *core.Run) {
 			mk("keyed literal with exported field "+f, "var v "+T+"\nfunc _() { _ = v."+f+" }\nvar _ = "+T+"{"+f+": nil}", true)
 		}
 	}
+	// conversions between trusted types: T2(valueOfT1) must not compile for distinct T1, T2
+	for _, f1 := range tnames {
+		for _, f2 := range tnames {
+			if f1 == f2 {
+				continue
+			}
+			i1, i2 := strings.LastIndex(f1, "."), strings.LastIndex(f2, ".")
+			_, s1 := importOf(f1[:i1])
+			_, s2 := importOf(f2[:i2])
+			imps := "\"github.com/google/safehtml\"\n\t\"github.com/google/safehtml/template\""
+			src := fmt.Sprintf("package c\n\nimport (\n\t%s\n)\n\nvar _ = safehtml.HTML{}\nvar _ = template.TrustedSource{}\nvar a %s.%s\nvar _ = %s.%s(a)\n", imps, s1, f1[i1+1:], s2, f2[i2+1:])
+			pkgPair := s1 + "->" + s2
+			clients = append(clients, c19Client{name: "convert " + f1 + " to " + f2, src: src, mustFail: true, what: fmt.Sprintf("converting a %s.%s to %s.%s", s1, f1[i1+1:], s2, f2[i2+1:]), key: "conversion " + pkgPair + "|" + s1 + "." + f1[i1+1:] + "->" + s2 + "." + f2[i2+1:]})
+		}
+	}
 	res := c19Compile(repo, clients)
 	if len(res) != len(clients) {
 		r.HarnessError("client compilation failed")
@@ -414,6 +435,9 @@ func checkC19(r *core.Run) {
 	var failedOK, compiledOK int64
 	for i, c := range clients {
 		switch {
+		case c.mustFail && res[i].compiled && strings.HasPrefix(c.key, "conversion "):
+			parts := strings.SplitN(strings.TrimPrefix(c.key, "conversion "), "|", 2)
+			r.Witness("trusted-type-conversion", parts[0], parts[1], c.what+": the client program compiles (the two struct types have identical underlying types)\n"+c.src, map[string]string{"Source": c.src, "Expect": "must-not-compile"})
 		case c.mustFail && res[i].compiled:
 			r.Witness("non-constant-accepted", "", c.key, c.what+": the client program compiles\n"+c.src, map[string]string{"Source": c.src, "Expect": "must-not-compile"})
 		case !c.mustFail && !res[i].compiled:
